@@ -255,6 +255,8 @@ def run_async_case(driver, seed, part, i, res, forced=None):
                                   f"from the preceding command (the serial protocols carry no correlation id)", cw)
                 else:
                     res.violation(f"C16/{driver}/wrong-answer/{kind}", f"send({cmd}): the bus gave {ans} for this frame, the caller received {got!r}", cw)
+        if getattr(sim, 'hostile_calls', 0):
+            res.hit('hostile_listener_runs')
         if sim.loop.errors:
             res.violation(f"C16/{driver}/internal-error", f"exception in a callback/task: {sim.loop.errors[0]}", wit)
         if i == 0:
